@@ -17,9 +17,18 @@ Next == \/ g = 0 /\ g' \in 1..G /\ k' = 0
         \/ g > 0 /\ k = 0 /\ k' \in {c \in 1..NCh : c % G = g - 1} /\ g' = g
 Spec == Init /\ [][Next]_<<g, k>>
 
+\* runs in which ONE system call of qmail-remote itself fails or is cut short, against a server that accepts everything
+\* (fault = 1): success only if the server did get the whole message and accepted it (srvok); otherwise a temporary
+\* failure - a local mishap is never a permanent one
+FaultVerdict(r) ==
+  IF r.nmsgreports # 1 THEN "NotExactlyOneMessageReport"
+  ELSE IF r.mr = "K" THEN (IF r.srvok = 1 THEN "" ELSE "SuccessReportedButServerDidNotAcceptMessage")
+  ELSE IF r.mr = "Z" THEN ""
+  ELSE "LocalFailureReportedAsPermanent"
 Verdict(r) ==
   LET v == RemoteVerdict(r.s, r.rr, r.mr, r.dup = 1)
-  IN IF r.exit # 0 THEN "NonZeroExit"
+  IN IF r.fault = 1 THEN FaultVerdict(r)
+     ELSE IF r.exit # 0 THEN "NonZeroExit"
      ELSE IF r.nmsgreports # 1 THEN "NotExactlyOneMessageReport"
      ELSE IF v # "" THEN v
      ELSE IF r.seen # [i \in 1..Len(r.seen) |-> i] THEN "RecipientsNotSentInArgumentOrder"
